@@ -292,8 +292,16 @@ def shared(o):
     sc = set(o["suites_c"] or SUITES)
     ss = set(o["suites_s"] or SUITES)
     ac, as_ = o["alpn_c"], o["alpn_s"]
-    if ac is None or as_ is None:
-        alpn = "either" if (ac is None) != (as_ is None) else True
+    if ac is None and as_ is None:
+        alpn = True
+    elif as_ is None:
+        # a server without an ALPN list ignores the client's offer (RFC 7301: the extension is optional for the server);
+        # whether that counts as "sharing an option" is a matter of reading -> either outcome is accepted
+        alpn = "either"
+    elif ac is None:
+        # a client that offers nothing against a server that insists on one of its protocols: nothing in common
+        # (RFC 9001 8.1: the server must refuse with no_application_protocol)
+        alpn = False
     else:
         alpn = bool(set(ac) & set(as_))
     return {"suite": bool(sc & ss), "version": bool(set(o["versions_c"]) & set(o["versions_s"])), "alpn": alpn}
